@@ -76,7 +76,7 @@ def m_tc19(ctx, case):
         st, f14, a, f25, b, vr_src, vr_sign, vr, ds, dv = sub
         me = radsb.tc19(st, f14, a, f25, b, vr_src, vr_sign, vr, ds, dv, rng.randrange(2), rng.randrange(2), rng.randrange(8),
                         rng.randrange(4))
-        hx = "%028X" % bits.es_frame(rng.choice((17, 17, 18)), rng.randrange(8), rng.fill(24), me)
+        hx = bits.anypi(rng, "%028X" % bits.es_frame(rng.choice((17, 17, 18)), rng.randrange(8), rng.fill(24), me))
         if rng.random() < 0.2:
             hx = hx.lower()
         exp6 = expected_tc19(st, f14, a, f25, b, vr_src, vr_sign, vr)
@@ -139,7 +139,7 @@ def m_surface(ctx, case):
         for trk in range(128):
             tc = rng.choice((5, 6, 7, 8))
             me = radsb.tc_surface(tc, mov, status, trk, rng.randrange(2), rng.randrange(2), rng.fill(17), rng.fill(17))
-            hx = "%028X" % bits.es_frame(rng.choice((17, 18)), rng.randrange(8), rng.fill(24), me)
+            hx = bits.anypi(rng, "%028X" % bits.es_frame(rng.choice((17, 18)), rng.randrange(8), rng.fill(24), me))
             if trk % 9 == 0:
                 hx = hx.lower()
             es = radsb.movement_kt(mov)
